@@ -191,7 +191,12 @@ pub trait Controller: Send + Sync {
 // ---------------------------------------------------------------------------
 // Per-thread and global state
 
+/// Participants of an abandoned execution (a runaway loop, a hang) become "zombies": every
+/// intercepted call of theirs fails with EIO after a short sleep and leaves no trace.
+static GENERATION: AtomicU64 = AtomicU64::new(1);
+
 thread_local! {
+    static MY_GEN: Cell<u64> = const { Cell::new(0) };
     static TID: Cell<i32> = const { Cell::new(-1) };
     static IN_SHIM: Cell<bool> = const { Cell::new(false) };
     static OP: Cell<u32> = const { Cell::new(0) };
@@ -244,6 +249,14 @@ static NOATIME_PREFIX: Mutex<Option<Vec<u8>>> = Mutex::new(None);
 pub fn set_participant(tid: i32) {
     TID.with(|t| t.set(tid));
     OP.with(|o| o.set(0));
+    MY_GEN.with(|g| g.set(GENERATION.load(SeqCst)));
+}
+/// Turns every current participant thread into a zombie.
+pub fn retire_generation() {
+    GENERATION.fetch_add(1, SeqCst);
+}
+fn is_zombie() -> bool {
+    MY_GEN.try_with(|g| g.get() != GENERATION.load(SeqCst)).unwrap_or(false)
 }
 pub fn participant() -> i32 {
     TID.try_with(|t| t.get()).unwrap_or(-1)
@@ -493,6 +506,13 @@ fn controller() -> Option<Arc<dyn Controller>> {
 
 /// Offers `ev` to the controller, runs `real` unless told otherwise, records.
 unsafe fn mediate(mut ev: Ev, real: &mut dyn FnMut(&mut Ev, bool) -> i64) -> i64 {
+    if is_zombie() {
+        let ts = libc::timespec { tv_sec: 0, tv_nsec: 1_000_000 };
+        libc::syscall(libc::SYS_nanosleep, &ts, std::ptr::null_mut::<libc::timespec>());
+        let _ = real;
+        set_errno(libc::EIO);
+        return -1;
+    }
     ev.tid = participant();
     ev.op = OP.with(|o| o.get());
     let ctl = controller();
